@@ -70,6 +70,10 @@ impl<'a> Choices<'a> {
         &xs[self.below(xs.len())]
     }
 
+    pub fn pick_str(&mut self, xs: &[&'static str]) -> &'static str {
+        xs[self.below(xs.len())]
+    }
+
     /// Weighted choice; returns the index. Earlier entries are "simpler".
     pub fn weighted(&mut self, weights: &[u32]) -> usize {
         let total: u64 = weights.iter().map(|w| *w as u64).sum();
